@@ -7,7 +7,7 @@ from vlib.workers import ALL, WorkerDied, WorkerSet
 
 PROPERTY = "C17"
 LEVEL = "exploration"
-RULE = ("History leg: Hypothesis-generated sequences (3-14 operations) over 4 module slots: add a fresh module {with its own "
+RULE = ("(Re-entry: a module's glue function extracts a stack itself; a glue function fails and the program's warnings.showwarning hook extracts one - every extraction returns, each glue runs once, the other module's glue is installed too.) History leg: Hypothesis-generated sequences (3-14 operations) over 4 module slots: add a fresh module {with its own "
         "_stackscope_install_glue_ | with built-in glue pending | both | neither | own glue that raises | built-in glue that "
         "raises | both kinds with the module's own glue raising | a None entry | a present module whose built-in glue, declared now, fails (must warn, not raise) | a module of a lazily-loading type (any attribute access, __dict__ included, would make it load: an extraction must not) | a module that is already in sys.modules when the built-in glue for it is declared (the situation of every module imported before stackscope), without or with glue of its own | [during an extraction, by a hook that then calls extract_child(): the glue must have run when that nested extraction returns] | own glue that, when run, inserts a further glue-bearing helper module (which may be handled by the running extraction or the next one)}, remove, re-insert (same object, a new module object of the same name and kind, or - where the name belonged to a glue-less module or a None entry - a new module object that does have glue), extract; a third of the histories are built around one name changing hands (add, optionally extract, remove, re-insert, filler insertion, extract); judged after "
         "every extract by a model (per module object: own glue unrun?; per name: built-in glue pending and not superseded?): the "
@@ -120,9 +120,37 @@ def check_schedule(ws, interps, case, out):
     return viols
 
 
+REENTRANT = ["glue_extracts", "warning_hook_extracts"]
+
+
+def check_reentrant(interps, variant, out):
+    """in workers of their own: a deadlock leaves the process useless"""
+    viols = []
+    case = {"reentrant": variant}
+    for interp in interps:
+        with WorkerSet([interp], hooks=True) as ws:
+            for _rep in range(2):
+                try:
+                    res = ws[interp].request({"op": "glue.reentrant", "variant": variant}, timeout=120)
+                except WorkerDied as ex:
+                    viols.append({"desc": "on %s: %s" % (interp, ex.returncode), "interp": interp})
+                    break
+                out.per_interp[interp] += 1
+                if res["obs"]:
+                    viols.append({"desc": "%s on %s: %r" % (res["obs"][0]["kind"], interp, res["obs"][0]), "interp": interp})
+                    break
+    out.note_case(case, True, classes=["extraction_started_while_this_thread_installs_glue." + variant], n_eval=2 * len(interps))
+    return viols
+
+
 def shard(arg):
     out = Outcome()
     interps = arg["interps"]
+    for variant in arg.get("reentrant", []):
+        for v in check_reentrant(interps, variant, out):
+            out.violation(v["desc"], {"reentrant": variant}, v["interp"])
+    if out.violations:
+        return out
     with WorkerSet(interps, hooks=True) as ws:
         fail = hyp_search(st.one_of(histories(), histories(), reuse_histories()), lambda c: check_history(ws, interps, c, out, arg["open"]), seed=arg["seed"],
                           max_examples=arg["n"], shrink=arg["shrink"])
@@ -141,7 +169,8 @@ def shard(arg):
 def run(ctx):
     nshards = ctx.pick(8, 16)
     args = [{"interps": ALL, "seed": ctx.shard_seed(i), "n": ctx.pick(480, 48000) // nshards,
-             "n_sched": ctx.pick(240, 16000) // nshards, "shrink": not ctx.quick, "open": sorted(ctx.open_findings)}
+             "n_sched": ctx.pick(240, 16000) // nshards, "shrink": not ctx.quick, "open": sorted(ctx.open_findings),
+             "reentrant": REENTRANT[i:i + 1]}
             for i in range(nshards)]
     out = run_shards("checks.c17", "shard", args)
     out.extra["interpreters"] = ALL
@@ -152,6 +181,10 @@ def replay(ctx, data):
     out = Outcome()
     interps = [data["interp"]] if data.get("interp") in ALL else ALL
     case = data["case"]
+    if "reentrant" in case:
+        for v in check_reentrant(interps, case["reentrant"], out):
+            out.violation(v["desc"], case, v["interp"])
+        return out
     with WorkerSet(interps, hooks=True) as ws:
         vs = check_schedule(ws, interps, case, out) if "nthreads" in case else check_history(
             ws, interps, case, out, sorted(ctx.open_findings))
